@@ -161,6 +161,7 @@ type relPoint struct {
 
 type loopInfo struct {
 	relEntry, relHead *relPoint
+	entryPhi map[*ssa.Phi]Val
 	relLatch          []*relPoint
 	head   *ssa.BasicBlock
 	ord    int
